@@ -34,6 +34,8 @@ type wireCfg struct {
 	// cleanUntilMs > 0: until this virtual time the network neither loses nor
 	// reorders (used to measure uninterrupted runs for C16)
 	cleanUntilMs int64
+	// dup: the sender was told (SetDUP) to emit every data datagram 1+dup times
+	dup int
 }
 
 type wgroup struct {
@@ -50,6 +52,8 @@ type wireFlow struct {
 	viol func(key, detail string)
 
 	seenDgram map[uint64]int
+	dupSeen   map[uint64]int
+	nDupCopies int64
 	seenNonce map[string]struct{}
 	seenSeq   map[uint32]struct{}
 	groups    map[uint32]*wgroup
@@ -98,6 +102,19 @@ func (f *wireFlow) bad(key, format string, args ...any) {
 func (f *wireFlow) observe(data []byte, nowMs int64) {
 	f.mu.Lock()
 	defer f.mu.Unlock()
+	if f.cfg.dup > 0 {
+		// the copies SetDUP asked for follow their original: they are not decoded again
+		if f.dupSeen == nil {
+			f.dupSeen = map[uint64]int{}
+		}
+		h := hashBytes(data)
+		if c := f.dupSeen[h]; c > 0 && c <= f.cfg.dup {
+			f.dupSeen[h]++
+			f.nDupCopies++
+			return
+		}
+		f.dupSeen[h] = 1
+	}
 	f.nDgram++
 	if len(data) > f.maxLen {
 		f.maxLen = len(data)
